@@ -140,6 +140,9 @@ func run(t failer, c Case, labels ...string) {
 		return
 	}
 	vk.R.Case(len(in.xgo) > 0, string(c.Src))
+	if len(in.xgo) > 0 && len(c.Src) < 1500 {
+		vk.R.Sample(string(c.Src))
+	}
 	for _, l := range labels {
 		vk.R.Class(l)
 	}
